@@ -932,3 +932,338 @@ pub fn gen_fault_base(seed: u64) -> Scenario {
     sc.clients.push(ClientScript { steps: vec![Step::Sleep { ms: 10_000 }, Step::Op { token: "late".into(), op, mods: Mods::default(), cancel_after_polls: None }], start_delay_ms: 0 });
     sc
 }
+
+/// Base scenario of family FRAME: several operations issued at t=0, all answered in one burst
+/// at t=5ms, so that the response bytes form one contiguous run the network can partition.
+pub fn gen_frame_base(seed: u64) -> Scenario {
+    let mut r = Rng::new(seed);
+    let mut sc = Scenario::new("FRAME");
+    sc.knobs = Knobs { lenform_extra_max: *r.pick(&[0, 0, 1, 3]), lenform_seed: r.next_u64(), ..Knobs::default() };
+    let nclients = 1 + r.usize(4);
+    let big = r.chance(1, 8);
+    let big_client = r.usize(nclients);
+    for c in 0..nclients {
+        let mut cs = ClientScript::default();
+        let tok = format!("c{c}s0");
+        match r.below(3) {
+            0 => {
+                let op = gen_single_op(&mut r, &tok);
+                let plan = gen_single_plan(&mut r, &op, &tok, &[5], false);
+                sc.plan.by_token.insert(tok.clone(), plan);
+                cs.steps.push(Step::Op { token: tok, op, mods: Mods::default(), cancel_after_polls: None });
+            }
+            k => {
+                let mut plan = gen_items_plan(&mut r, &tok, 4, true, &[0]);
+                let mut n_items = 0;
+                if let ReplyPlan::Items { items, done, .. } = &mut plan {
+                    if big && c == big_client {
+                        let size = *r.pick(&[3000usize, 9000, 20_000, 65_000]);
+                        items.insert(0, ItemPlan { gap_ms: 0, op: RespOp::Entry { dn: format!("cn={tok}:big"), attrs: vec![("blob".into(), vec![r.bytes(size)])] }, ctrls: None });
+                    }
+                    if let Some(f) = items.first_mut() {
+                        f.gap_ms = 5;
+                    } else if let Some(d) = done {
+                        d.gap_ms = 5;
+                    }
+                    n_items = items.len();
+                }
+                sc.plan.by_token.insert(tok.clone(), plan);
+                if k == 1 {
+                    cs.steps.push(Step::Op { token: tok.clone(), op: OpSpec::Search(simple_search(&tok, &mut r)), mods: Mods::default(), cancel_after_polls: None });
+                } else {
+                    cs.steps.push(Step::Open { token: tok.clone(), slot: 0, search: simple_search(&tok, &mut r), adapter: if r.chance(1, 2) { Adapter::Direct } else { Adapter::EntriesOnly }, mods: Mods::default() });
+                    for _ in 0..=n_items {
+                        cs.steps.push(Step::Next { slot: 0, cancel_after_polls: None });
+                    }
+                    cs.steps.push(Step::Finish { slot: 0 });
+                }
+            }
+        }
+        // a second, later operation per client: its reply must not be eaten by the first burst
+        if r.chance(1, 2) {
+            let tok = format!("c{c}s9");
+            let op = gen_single_op(&mut r, &tok);
+            let plan = gen_single_plan(&mut r, &op, &tok, &[0, 2], false);
+            sc.plan.by_token.insert(tok.clone(), plan);
+            cs.steps.push(Step::Op { token: tok, op, mods: Mods::default(), cancel_after_polls: None });
+        }
+        sc.clients.push(cs);
+    }
+    sc
+}
+
+// ---------------------------------------------------------------------------------------------
+// SEQ: one handle, every operation kind with generated arguments and modifiers
+// ---------------------------------------------------------------------------------------------
+
+fn gen_attr_name(r: &mut Rng) -> String {
+    match r.below(6) {
+        0 => format!("{}.{}.{}", r.below(3), r.below(40), r.below(1000)),
+        1 => format!("cn;lang-{}", (b'a' + r.below(26) as u8) as char),
+        _ => {
+            let n = 1 + r.usize(8);
+            let mut s = String::new();
+            s.push((b'a' + r.below(26) as u8) as char);
+            for _ in 1..n {
+                s.push(*r.pick(&['a', 'b', 'c', 'x', 'y', 'z', 'A', 'Q', '0', '7', '-']));
+            }
+            s
+        }
+    }
+}
+
+fn gen_filter_value(r: &mut Rng) -> Bytes {
+    // never empty for substring parts; callers handle emptiness
+    let mut v = gen_bytes(r, 12);
+    if v.is_empty() {
+        v.push(b'v');
+    }
+    v
+}
+
+pub fn gen_filter(r: &mut Rng, depth: u32) -> Filter {
+    let k = if depth >= 3 { 3 + r.below(7) } else { r.below(10) };
+    let a = |r: &mut Rng| gen_attr_name(r).into_bytes();
+    match k {
+        0 => Filter::And((0..r.usize(4)).map(|_| gen_filter(r, depth + 1)).collect()),
+        1 => Filter::Or((0..r.usize(4)).map(|_| gen_filter(r, depth + 1)).collect()),
+        2 => Filter::Not(Box::new(gen_filter(r, depth + 1))),
+        3 => Filter::Eq(a(r), if r.chance(1, 8) { vec![] } else { gen_filter_value(r) }),
+        4 => {
+            let initial = if r.chance(1, 2) { Some(gen_filter_value(r)) } else { None };
+            let any: Vec<Bytes> = (0..r.usize(3)).map(|_| gen_filter_value(r)).collect();
+            let mut fin = if r.chance(1, 2) { Some(gen_filter_value(r)) } else { None };
+            if initial.is_none() && any.is_empty() && fin.is_none() {
+                fin = Some(gen_filter_value(r));
+            }
+            Filter::Sub { attr: a(r), initial, any, fin }
+        }
+        5 => Filter::Ge(a(r), gen_filter_value(r)),
+        6 => Filter::Le(a(r), gen_filter_value(r)),
+        7 => Filter::Present(a(r)),
+        8 => Filter::Approx(a(r), gen_filter_value(r)),
+        _ => {
+            let rule = if r.chance(1, 2) { Some(format!("1.2.840.113556.1.4.{}", r.below(2000)).into_bytes()) } else { None };
+            let attr = if rule.is_none() || r.chance(1, 2) { Some(a(r)) } else { None };
+            Filter::Ext { rule, attr, value: gen_filter_value(r), dn: r.chance(1, 3) }
+        }
+    }
+}
+
+pub fn gen_search_spec(r: &mut Rng, base: String) -> SearchSpec {
+    let f = gen_filter(r, 0);
+    let mut s = String::new();
+    crate::msg::render_filter(&f, r.below(3) as u8, &mut s);
+    let nattrs = if r.chance(1, 20) { 50 } else { r.usize(5) };
+    SearchSpec { base, scope: r.below(3) as u8, filter_str: s, filter: Some(f), attrs: (0..nattrs).map(|_| if r.chance(1, 5) { gen_string(r, 6) } else { gen_attr_name(r) }).collect() }
+}
+
+fn gen_vals(r: &mut Rng, allow_empty: bool) -> Vec<Bytes> {
+    let n = if allow_empty { r.usize(5) } else { 1 + r.usize(4) };
+    let mut v: Vec<Bytes> = (0..n).map(|_| if r.chance(1, 60) { r.bytes(20_000) } else { gen_bytes(r, 16) }).collect();
+    if r.chance(1, 6) && !v.is_empty() {
+        // duplicate values collapse in a set
+        let d = v[0].clone();
+        v.push(d);
+    }
+    v
+}
+
+fn gen_dn(r: &mut Rng) -> String {
+    match r.below(8) {
+        0 => String::new(),
+        1 => gen_string(r, 200),
+        2 => format!("cn={},dc=example,dc=org", gen_string(r, 10)),
+        _ => format!("uid={},ou=p", r.below(100000)),
+    }
+}
+
+pub fn gen_rich_op(r: &mut Rng) -> OpSpec {
+    match r.below(11) {
+        0 => OpSpec::SimpleBind { dn: gen_dn(r), pw: gen_string(r, 12) },
+        1 => OpSpec::SaslExternal,
+        2 | 3 => {
+            let base = gen_dn(r);
+            OpSpec::Search(gen_search_spec(r, base))
+        }
+        4 => OpSpec::Add { dn: gen_dn(r), attrs: (0..r.usize(5)).map(|_| (gen_attr_name(r).into_bytes(), gen_vals(r, false))).collect() },
+        5 => OpSpec::Compare { dn: gen_dn(r), attr: gen_attr_name(r), val: gen_bytes(r, 20) },
+        6 => OpSpec::Delete { dn: gen_dn(r) },
+        7 => OpSpec::Modify {
+            dn: gen_dn(r),
+            mods: (0..r.usize(5))
+                .map(|_| {
+                    let a = gen_attr_name(r).into_bytes();
+                    match r.below(4) {
+                        0 => ModSpec::Add(a, gen_vals(r, false)),
+                        1 => ModSpec::Delete(a, gen_vals(r, true)),
+                        2 => ModSpec::Replace(a, gen_vals(r, true)),
+                        _ => ModSpec::Increment(a, format!("{}", r.below(1000)).into_bytes()),
+                    }
+                })
+                .collect(),
+        },
+        8 => OpSpec::ModifyDn { dn: gen_dn(r), rdn: format!("cn={}", gen_string(r, 8)), delete_old: r.chance(1, 2), new_sup: if r.chance(1, 2) { Some(gen_dn(r)) } else { None } },
+        9 => OpSpec::Extended {
+            oid: gen_oid(r),
+            val: match r.below(3) {
+                0 => None,
+                1 => Some(vec![]),
+                _ => Some(gen_bytes(r, 40)),
+            },
+        },
+        _ => OpSpec::Abandon(IdRef::Raw(1 + r.below(2147483646) as i32)),
+    }
+}
+
+pub fn gen_rich_result(r: &mut Rng, op: &OpSpec) -> (ResultSpec, Option<Vec<Ctl>>) {
+    let rc = match r.below(4) {
+        0 => 0,
+        1 => r.below(124) as u32,
+        2 => *r.pick(RESULT_CODES),
+        _ => r.below(2147483648) as u32,
+    };
+    let text = |r: &mut Rng| if r.chance(1, 50) { gen_string(r, 20_000) } else if r.chance(1, 3) { String::new() } else { gen_string(r, 30) };
+    let mut res = ResultSpec {
+        rc,
+        matched: text(r),
+        text: text(r),
+        refs: if r.chance(1, 3) { Some((0..r.usize(5)).map(|i| format!("ldap://h{i}/{}", gen_string(r, 8))).collect()) } else { None },
+        sasl_creds: None,
+        exop_name: None,
+        exop_val: None,
+    };
+    match op {
+        OpSpec::SimpleBind { .. } | OpSpec::SaslExternal => {
+            if r.chance(1, 3) {
+                res.sasl_creds = Some(gen_bytes(r, 10));
+            }
+        }
+        OpSpec::Extended { .. } => {
+            if r.chance(1, 2) {
+                res.exop_name = Some(gen_oid(r));
+            }
+            res.exop_val = match r.below(3) {
+                0 => None,
+                1 => Some(vec![]),
+                _ => Some(gen_bytes(r, 30)),
+            };
+        }
+        OpSpec::Compare { .. } => {
+            if r.chance(1, 2) {
+                res.rc = *r.pick(&[5, 6, 10, 0]);
+            }
+        }
+        _ => {}
+    }
+    let ctrls = if r.chance(1, 2) {
+        None
+    } else {
+        Some(
+            (0..r.usize(5))
+                .map(|_| Ctl {
+                    oid: (if r.chance(1, 3) { r.pick(KNOWN_OIDS).to_string() } else { gen_oid(r) }).into_bytes(),
+                    crit: *r.pick(&[None, Some(true), Some(false)]),
+                    val: match r.below(3) {
+                        0 => None,
+                        1 => Some(vec![]),
+                        _ => Some(gen_bytes(r, 24)),
+                    },
+                })
+                .collect(),
+        )
+    };
+    (res, ctrls)
+}
+
+fn gen_mods(r: &mut Rng) -> Mods {
+    Mods {
+        controls: match r.below(4) {
+            0 | 1 => None,
+            _ => Some(
+                (0..r.usize(5))
+                    .map(|_| Ctl {
+                        oid: gen_oid(r).into_bytes(),
+                        crit: if r.chance(1, 3) { Some(true) } else { None },
+                        val: match r.below(3) {
+                            0 => None,
+                            1 => Some(vec![]),
+                            _ => Some(gen_bytes(r, 24)),
+                        },
+                    })
+                    .collect(),
+            ),
+        },
+        timeout_ms: if r.chance(1, 5) { Some(*r.pick(&[5, 50, 1000])) } else { None },
+        opts: if r.chance(1, 3) {
+            Some(SearchOpts { deref: r.below(4) as u8, typesonly: r.chance(1, 2), timelimit: *r.pick(&[0, 1, 60, 2147483647]), sizelimit: *r.pick(&[0, 1, 500, 2147483647, 128, 32768]) })
+        } else {
+            None
+        },
+    }
+}
+
+/// Family SEQ: one handle, strictly sequential, every operation kind with generated arguments,
+/// modifiers applied / omitted / overwritten in every combination, rich responses.
+pub fn gen_seq(seed: u64) -> Scenario {
+    let mut r = Rng::new(seed);
+    let mut sc = Scenario::new("SEQ");
+    sc.knobs = gen_knobs(&mut r, false);
+    sc.knobs.yield_pm = 0;
+    sc.knobs.net_delay_max_ms = 0;
+    sc.knobs.write_pending_pm = 0;
+    sc.knobs.lenform_extra_max = *r.pick(&[0, 1, 3, 3]);
+    let mut cs = ClientScript::default();
+    let n = 2 + r.usize(9);
+    let mut arrival = 0usize;
+    for _ in 0..n {
+        if r.chance(1, 4) {
+            cs.steps.push(Step::SetMods { mods: gen_mods(&mut r) });
+        }
+        let mut op = gen_rich_op(&mut r);
+        let mut mods = if r.chance(1, 2) { gen_mods(&mut r) } else { Mods::default() };
+        // sometimes a call that is refused before anything is sent
+        let mut refused = false;
+        if r.chance(1, 12) {
+            refused = true;
+            op = match r.below(3) {
+                0 => OpSpec::Add { dn: gen_dn(&mut r), attrs: vec![(b"cn".to_vec(), vec![])] },
+                1 => OpSpec::Modify { dn: gen_dn(&mut r), mods: vec![ModSpec::Add(b"cn".to_vec(), vec![])] },
+                _ => OpSpec::Search(SearchSpec { base: gen_dn(&mut r), scope: 2, filter_str: "(cn=unbalanced".into(), filter: None, attrs: vec![] }),
+            };
+        }
+        let tok = format!("#{arrival}");
+        let sends = !refused;
+        if sends {
+            let expects_reply = !matches!(op, OpSpec::Abandon(_));
+            if expects_reply {
+                // a timed operation either gets a prompt reply or none at all (timing itself is C12's business)
+                let silent = mods.timeout_ms.is_some() && r.chance(1, 3);
+                // the effective timeout may also come from an earlier SetMods: keep replies prompt
+                let plan = if let OpSpec::Search(_) = op {
+                    let mut p = gen_items_plan(&mut r, &tok, 3, true, &[0]);
+                    if let ReplyPlan::Items { done: Some(d), .. } = &mut p {
+                        let (res, ctrls) = gen_rich_result(&mut r, &op);
+                        d.res = res;
+                        d.ctrls = ctrls;
+                    }
+                    p
+                } else if silent {
+                    ReplyPlan::Silent
+                } else {
+                    let (res, ctrls) = gen_rich_result(&mut r, &op);
+                    ReplyPlan::Single { after_ms: 0, res, ctrls, extra: vec![] }
+                };
+                if matches!(plan, ReplyPlan::Silent) && mods.timeout_ms.is_none() {
+                    mods.timeout_ms = Some(5);
+                }
+                sc.plan.by_token.insert(tok.clone(), plan);
+            }
+            arrival += 1;
+        }
+        cs.steps.push(Step::Op { token: if sends { tok } else { format!("refused{}", cs.steps.len()) }, op, mods, cancel_after_polls: None });
+    }
+    sc.clients.push(cs);
+    sc.id_table = gen_id_start(&mut r);
+    sc
+}
